@@ -118,6 +118,7 @@ type gen struct {
 	assignErr error
 	frameProps []string
 	opaques map[string]*opaqueDef
+	onCall func(g *gen, c *ssa.CallCommon, callee *ssa.Function, args []Val, pos token.Pos)
 	inAxiom bool
 	rangeSeen string
 	rangeSeenSort string
